@@ -22,3 +22,6 @@ package atree
 
 // verifEvent is a no-op unless built with the "verif" tag.
 func verifEvent(string, any) {}
+
+// verifLevel0DigestMask is 0 (no masking) unless built with the "verif" tag.
+func verifLevel0DigestMask() uint64 { return 0 }
